@@ -324,7 +324,7 @@ package datastore
 //@ pred knownEncoding(e) = e == sdcpb.Encoding_STRING || e == sdcpb.Encoding_JSON || e == sdcpb.Encoding_JSON_IETF || e == sdcpb.Encoding_PROTO
 //@ func (*Datastore).Get
 //@   props C14
-//@   requires d != nil && d.cacheClient != nil && d.schemaClient != nil
+//@   requires d != nil && d.cacheClient != nil && d.schemaClient != nil && d.config != nil
 //@   let enc = req.GetEncoding()
 //@   let intendedState = req.GetDatastore().GetType() == sdcpb.Type_INTENDED && req.GetDataType() == sdcpb.DataType_STATE
 //@   let npaths = len(req.GetPath())
